@@ -44,6 +44,8 @@ def run_job(args):
                  witness_cap=opts.get("witnesses", 2), index_concretize_limit=opts.get("index_concretize_limit", 0),
                  path_seconds=opts.get("path_seconds", 300))
     eng.cfg = cfg
+    if os.environ.get("PVX_DUMP_DIR"):
+        eng.dump_dir = os.environ["PVX_DUMP_DIR"]
 
     def witness(ins, ufs):
         r = run_concrete(fn, ins, ufs, cfg)
@@ -125,6 +127,11 @@ def main(argv=None):
     extra = getattr(mod, "pre_run", None)
     pre = extra(tier, seed) if extra else None
     results = []
+    dump_dir = None
+    if tier == "thorough" and getattr(mod, "CROSS_CHECK", False) and not a.only:
+        import tempfile
+        dump_dir = tempfile.mkdtemp(prefix="pvx-smt2-")
+        os.environ["PVX_DUMP_DIR"] = dump_dir
     if jobs:
         ctxm = mp.get_context("fork")
         with ctxm.Pool(min(a.procs, len(jobs)), maxtasksperchild=40) as pool:
@@ -196,6 +203,14 @@ def main(argv=None):
             except Exception as e:  # noqa: BLE001
                 py312 = f"not run: {e!r}"
             violations_new.append({"label": v["label"], "job": r["job"], "replay": path, "py312": py312, "inputs": v["inputs"]})
+    cross = None
+    if dump_dir:
+        import shutil
+        cross, bad = cross_check(dump_dir)
+        shutil.rmtree(dump_dir, ignore_errors=True)
+        for b in bad:
+            inconclusive.append("second solver disagrees: " + b)
+        print(f"second-solver re-check of {cross['queries']} dumped assertion queries: {cross}")
     expect = getattr(mod, "EXPECT_LABELS", {}).get(tier, getattr(mod, "EXPECT_LABELS", {}).get("quick", [])) if not a.only else []
     for lab in expect:
         if not any(k == lab or k.startswith(lab) for k in reached):
@@ -227,6 +242,9 @@ def main(argv=None):
         if reached[k] != proved.get(k, 0):
             print(f"  label {k}: reached {reached[k]} proved {proved.get(k, 0)}")
     if not a.only and not os.environ.get("PVX_NO_EVIDENCE"):
+        if cross:
+            pre = dict(pre or {})
+            pre.setdefault("coverage", {})["second_solver_recheck"] = cross
         write_evidence(mod, prop, tier, seed, results, tot, solver_s, wall, reached, proved, witnesses_ok, replays,
                        violations_new, known_hit, inconclusive, pre)
     if violations_new:
@@ -234,6 +252,36 @@ def main(argv=None):
     if inconclusive:
         return 2
     return 0
+
+
+def cross_check(dump_dir, procs=16, timeout=60):
+    """re-decide the dumped assertion queries with two other solver builds; returns (stats, disagreements)"""
+    import concurrent.futures
+    import glob
+    files = sorted(glob.glob(os.path.join(dump_dir, "*.smt2")))
+
+    def one(path):
+        expect = open(path + ".expect").read().strip() if os.path.exists(path + ".expect") else "?"
+        res = {}
+        for name, cmd in (("z3-4.8.12", ["/usr/bin/z3", f"-T:{timeout}", path]), ("cvc5-1.0", ["cvc5", f"--tlimit={timeout * 1000}", path])):
+            try:
+                p = subprocess.run(cmd, capture_output=True, text=True, timeout=timeout + 10)
+                out = (p.stdout + p.stderr).strip().splitlines()
+                ans = next((ln.strip() for ln in out if ln.strip() in ("sat", "unsat", "unknown")), "error" if any("error" in ln for ln in out) else "timeout")
+            except subprocess.TimeoutExpired:
+                ans = "timeout"
+            res[name] = ans
+        return path, expect, res
+    stats = {"queries": len(files), "z3-4.8.12": {}, "cvc5-1.0": {}}
+    bad = []
+    with concurrent.futures.ThreadPoolExecutor(procs) as ex:
+        for path, expect, res in ex.map(one, files):
+            for name, ans in res.items():
+                key = "agree" if ans == expect else ("undecided" if ans in ("unknown", "timeout", "error") else "DISAGREE")
+                stats[name][key] = stats[name].get(key, 0) + 1
+                if key == "DISAGREE":
+                    bad.append(f"{os.path.basename(path)}: z3-5.1 {expect}, {name} {ans}")
+    return stats, bad
 
 
 def write_evidence(mod, prop, tier, seed, results, tot, solver_s, wall, reached, proved, witnesses_ok, replays,
